@@ -26,6 +26,7 @@ package http2
 //@ ensures complete: len(b) > 0 && forall(i, 0, len(b), b[i] >= '0' && b[i] <= '9') &&
 //@ |   forall(k, 1, len(b) + 1, spec.decp(b, k) <= 9223372036854775807) ==> r1 == nil
 //@ ensures value: r1 == nil ==> r0 == spec.decp(b, len(b))
+//@ ensures nonneg: r0 >= 0
 
 // ---------------------------------------------------------------------------
 // Shared abbreviations
@@ -37,7 +38,7 @@ package http2
 //@ macro be31(b, o) = (b[o] % 128)*16777216 + b[o+1]*65536 + b[o+2]*256 + b[o+3]
 //@ macro isbe32(b, o, n) = b[o] == (n >> 24) % 256 && b[o+1] == (n >> 16) % 256 && b[o+2] == (n >> 8) % 256 && b[o+3] == n % 256
 
-//@ sealed Frame
+//@ sealed Frame FrameWithHeaders
 //@ pool frameHeaderPool: *FrameHeader
 //@ pool headerPool: *HeaderField
 //@ pool hpackPool: *HPACK
@@ -567,6 +568,7 @@ package http2
 //@ let b0 = old(b)
 //@ let c = old(b)[0]
 //@ ensures empty: len(b0) == 0 ==> r1 == nil && len(r0) == 0
+//@ ensures tblok: hpackOK(hp)
 //@ # every successful step consumes input (C16: bounded work)
 //@ ensures progress: r1 == nil && len(b0) > 0 ==> len(r0) < len(b0)
 //@ ensures suffix: r1 == nil ==> samearray(r0, b0) && offset(r0) + len(r0) == offset(b0) + len(b0)
@@ -825,3 +827,51 @@ package http2
 //@ ensures inv: sc.currentWindow <= sc.maxWindow && sc.currentWindow >= sc.maxWindow / 2
 //@ # stream credit: everything received is handed back unless the peer has finished the stream
 //@ ensures strmcredit: n > 0 && !hasflag(fr.flags, 1) ==> called((*serverConn).writeWindowUpdate) >= 1
+
+//@ macro lower(k) = forall(i, 0, len(k), !(k[i] >= 'A' && k[i] <= 'Z'))
+//@ macro connspecific(k) = k == "connection" || k == "keep-alive" || k == "proxy-connection" || k == "transfer-encoding" || k == "upgrade"
+//@ # RFC 7540 8.1.2: a regular request field that may be handed to the handler
+//@ macro regularOK(k, v) = lower(k) && (len(k) == 0 || k[0] != ':') && !connspecific(k) && (k == "te" ==> v == "trailers")
+
+//@ func isConnectionSpecific
+//@ props C20
+//@ pure
+//@ ensures iff: r0 <==> connspecific(k)
+
+//@ func (*HeaderField).IsPseudo
+//@ props C20
+//@ requires recv: hf != nil
+//@ pure
+//@ ensures iff: r0 <==> (len(hf.key) > 0 && hf.key[0] == ':')
+
+//@ func (*serverConn).handleHeaderFrame
+//@ props C20 C13 C09 C01 C16 C17
+//@ requires args: sc != nil && strm != nil && fr != nil && strm.ctx != nil
+//@ requires typed: (fr.kind == 1 || fr.kind == 9) && frameTypeOK(fr.fr, fr.kind)
+//@ requires dec: hpackOK(sc.dec)
+//@ # ASSUMPTION: the running header-list size and the field counter (int sums of slice lengths) do not overflow;
+//@ # the verifier's 2^40 slice-size assumption is too weak to prove it
+//@ opt noovf=true
+//@ opt noframe=true
+//@ modifies *strm, capacity(strm.previousHeaderBytes), capacity(strm.path), capacity(strm.scheme), sc.dec.maxTableSize, sc.dec.dynamic, capacity(sc.dec.dynamic), family(HeaderField), anybytes()
+//@ loop 0: invariant dec: hpackOK(sc.dec)
+//@ loop 0: invariant ptrs: hf != nil && strm != nil && sc != nil && fr != nil && req != nil && strm.ctx != nil
+//@ loop 0: invariant cnt: fieldsProcessed >= 0
+//@ loop 0: invariant lim: sc.maxHeaderList > 0 && old(strm.headerListSize) <= sc.maxHeaderList ==> strm.headerListSize <= sc.maxHeaderList
+//@ # ---- accepted fields are well-formed (RFC 7540 8.1.2): checked where each kind of field is handed to fasthttp ----
+//@ assert@call:(*RequestHeader).SetMethodBytes#1 method: lower(k) && k == ":method" && !strm.regularSeen
+//@ # (k may share its buffer with strm.path, which has just been overwritten: only the ordering rule is restated here)
+//@ assert@call:(*RequestHeader).SetRequestURIBytes#1 path: !strm.regularSeen
+//@ assert@call:(*RequestHeader).SetHostBytes#1 authority: lower(k) && k == ":authority" && !strm.regularSeen
+//@ assert@call:(*RequestHeader).SetUserAgentBytes#1 ua: regularOK(k, v)
+//@ assert@call:(*header).SetContentTypeBytes#1 ct: regularOK(k, v)
+//@ assert@call:(*RequestHeader).AddBytesKV#1 cl: regularOK(k, v)
+//@ assert@call:(*RequestHeader).AddBytesKV#2 other: regularOK(k, v)
+//@ # ---- limits (C13) ----
+//@ # a content-length is only recorded when it is a number within the body limit
+//@ assert@call:(*RequestHeader).AddBytesKV#1 clmax: strm.hasContentLength && strm.contentLength >= 0 &&
+//@ |   (sc.maxRequestBodySize > 0 ==> strm.contentLength <= sc.maxRequestBodySize)
+//@ ensures listsize: sc.maxHeaderList > 0 && old(strm.headerListSize) <= sc.maxHeaderList &&
+//@ |   (r0 == nil || !(iserror(r0) && errframe(r0) == FrameGoAway)) ==> strm.headerListSize <= sc.maxHeaderList
+//@ # ---- a trailer block must end the stream (RFC 7540 8.1) ----
+//@ ensures trailers: old(strm.headersFinished) && !(hasflag(fr.flags, 1) && hasflag(fr.flags, 4)) ==> r0 != nil
